@@ -606,6 +606,26 @@ func runC11(p *an.Prog, r *an.Run, tier string) {
 		if reach := an.ReachAvoiding(upd, an.EdgeSet(an.ErrEdges(updPeers[0]).Succ)); reach[nodePeers[0].Block()] {
 			bad = append(bad, "the active peer set is read before UpdateNodePeers has been applied: a peer declared invalid by this keep-alive is still reported (and billed) as active, a newly reported one is missing")
 		}
+		// ... on every path: no keep-alive is answered (or billed) without the active set having been read from the
+		// store after this update — a set remembered from the previous keep-alive misses peers that registered since
+		isNP := func(in ssa.Instruction) bool { return in == nodePeers[0].(ssa.Instruction) }
+		isUse := func(in ssa.Instruction) bool {
+			if c, ok := in.(ssa.CallInstruction); ok {
+				if f := an.CallObj(c); f != nil && f.Name() == "OnUpdate" {
+					return true
+				}
+			}
+			if ret, ok := in.(*ssa.Return); ok {
+				cls, _ := returnClass(ret)
+				return cls != "nonnil"
+			}
+			return false
+		}
+		for _, e := range an.ErrEdges(updPeers[0]).Succ {
+			if hit := pathFromBlock(upd, e.To, isNP, isUse); hit != nil {
+				bad = append(bad, "the keep-alive can be billed or answered at "+p.Pos(hit.Pos())+" without NodePeers having been read after the update (a remembered active set)")
+			}
+		}
 		// the response returned is the one filled in
 	}
 	r.Check(len(bad) == 0, "reply-wiring", "(*pool.VipnodePool).Update", upd.Pos(), "InvalidPeers <- evicted ids, ActivePeers <- URIs of NodePeers after the update", "%s", strings.Join(bad, "; "))
